@@ -51,7 +51,7 @@ func main() {
 		return
 	}
 	run := common.NewRun("C03")
-	run.Res.Rule = "cases = (integer kind, integer literal) for representableConst — every boundary of every width (min-1, min, max, max+1, ±2^bits, ±(2^bits-1), 2^63.., 2^64..) plus seeded literals up to 2^200 — and generated programs declaring constants from seeded, type-directed expression trees (depth ≤ 6, every constant operator, conversions to every basic type, untyped int/rune/float/bool/string literals up to 2^200) in the contexts var / const / typed var / typed const / const block with iota and implicit repetition; non-trivial = boundary-distance ≤ 1 or magnitude ≥ 2^8 for repr cases, expression of depth ≥ 2 (or block of ≥ 2 specs) for programs; distinct = distinct protocol line"
+	run.Res.Rule = "cases = (integer kind, integer literal) for representableConst — every boundary of every width (min-1, min, max, max+1, ±2^bits, ±(2^bits-1), 2^63.., 2^64..) plus seeded literals up to 2^200 — and generated programs declaring constants from seeded, type-directed expression trees (depth ≤ 6, every constant operator, conversions to every basic type, untyped int/rune/float/bool/string literals up to 2^200 and around the 512-bit limit of the toolchain, shift counts around 512 and 1074, typed zero divisors, typed floating-point shift counts, string(integer expression), comparisons and logical operators) in the contexts var / const / typed var / typed const / const block with iota and implicit repetition; non-trivial = boundary-distance ≤ 1 or magnitude ≥ 2^8 for repr cases, expression of depth ≥ 2 (or block of ≥ 2 specs) for programs; distinct = distinct protocol line"
 	defer run.Finish()
 	drv, err := common.StartDriver("C03")
 	if err != nil {
